@@ -115,9 +115,10 @@ type cEvent struct {
 type cConn struct {
 	Cfg    cCfg
 	Ev     []cEvent
-	Chunks []int // chunk sizes, cycled
-	Costs  []int // ms of fake time charged per processed frame, cycled
-	CutAt  int   // close the connection after this many bytes of the last frame (-1: on the frame boundary)
+	Chunks []int  // chunk sizes, cycled
+	Costs  []int  // ms of fake time charged per processed frame, cycled
+	CutAt  int    // close the connection after this many bytes of the last frame (-1: on the frame boundary)
+	OutDir string // set at execution (storage-fault events rename it)
 }
 
 type cScenario struct {
@@ -442,6 +443,10 @@ func (cn *cConn) describe() string {
 		c.Model, c.W, c.H, c.Fps, c.Serial, c.Firmware, c.DeviceID, len(c.DeviceName), c.MinS, c.MaxS, c.Preview, c.Cont, c.ThrOn, c.HasLoc, strings.Join(c.MotionKeys, "; "), cn.Chunks, cn.CutAt, b)
 }
 
+func defaultMotionFor(model string) goconfig.ThermalMotion {
+	return goconfig.DefaultThermalMotion(model)
+}
+
 func telFor(upMs uint32, id int) zz.Tel {
 	h := verifsim.Mix(uint64(id), 7)
 	return zz.Tel{TimeOnMs: upMs, LastFFCMs: 1000, FrameCount: uint32(id), FrameMean: uint16(h), FPATemp: uint16(27000 + h%6000), FPATempFFC: uint16(27000 + (h>>16)%6000)}
@@ -592,6 +597,7 @@ func execPlain(sc *cScenario) *cResult {
 			if err := os.WriteFile(filepath.Join(confDir, goconfig.ConfigFileName), []byte(cn.Cfg.toml(outDir)), 0644); err != nil {
 				panic(err)
 			}
+			cn.OutDir = outDir
 			conf, err := ParseConfig(confDir)
 			if err != nil {
 				res.ParseErr = err
@@ -714,6 +720,18 @@ func cameraPlain(cn *cConn, conn net.Conn) {
 			time.Sleep(owed + period)
 			owed = 0
 			newSnapshotRecording()
+		case 'G', 'R':
+			// storage fault: the output directory disappears / comes back while the loop is idle
+			if !flush(true) {
+				return
+			}
+			time.Sleep(owed + period)
+			owed = 0
+			if e.Kind == 'G' {
+				os.Rename(cn.OutDir, cn.OutDir+".gone")
+			} else {
+				os.Rename(cn.OutDir+".gone", cn.OutDir)
+			}
 		case 'F', 'B':
 			raw := cn.rawFrame(e)
 			if i == lastFrame && cn.CutAt >= 0 {
@@ -806,6 +824,9 @@ func reference(cn *cConn, procTimes []time.Time, delivered int) ([]refRec, *zz.T
 		e := &cn.Ev[i]
 		if (e.Kind == 'F' || e.Kind == 'B') && nF >= delivered {
 			break
+		}
+		if e.Kind == 'G' || e.Kind == 'R' {
+			continue
 		}
 		ev := tr.Begin(zz.Event{Kind: e.Kind, ID: -1, Ord: -1, WinOpen: true, DiskOK: true, CreateOK: true})
 		switch e.Kind {
@@ -1297,6 +1318,20 @@ var stubC = []string{"camera daemon (simulated peer on a net.Pipe speaking the w
 
 func unitsC() []verifsim.Unit {
 	return []verifsim.Unit{
+		{
+			Name: "C.log", Props: []string{"C20"}, Run: runCLog, MinimiseRuns: 30,
+			Rule:    "one case = the daemon (real handleConn, config.toml with the recording window closed or opening during the run) fed 80-700 frames of continuous motion at 1-2 fps (up to ~12 simulated minutes) with occasional test-recording requests; the daemon's captured log is compared line by line with R-log applied to the refused starts and test-recording starts at the instants the daemon read the clock; non-trivial = at least three expected lines; distinct = window + frames + expected line string",
+			Measure: "expected line strings",
+			Real:    realC, Stub: stubC,
+			Assumptions: []string{"log lines are recognised by their text (the daemon's other log lines are ignored)"},
+		},
+		{
+			Name: "C.dirfault", Props: []string{"C12"}, Run: runCDirFault, MinimiseRuns: 30,
+			Rule:    "spot check with the real storage layer: one connection, three real CPTVFileRecorders (continuous on/off, throttle on/off), test-recording requests and bad frames; the output directory is renamed away at a seeded frame and renamed back later (file creation, disk check and the final rename fail in between), followed by a fault-free quiet-burst-quiet suffix; no panic, every *.cptv decodes, the burst is recorded; non-trivial = every run",
+			Measure: "-",
+			Real:    realC, Stub: stubC,
+			Assumptions: []string{"storage failures are provoked through the file system namespace (rename of the output directory); EIO/ENOSPC below go-cptv are not injected"},
+		},
 		{
 			Name: "C.crash", Props: []string{"C10"}, Run: runCCrash, MinimiseRuns: 40,
 			Rule:    "one case = 1-2 camera connections (motion recordings, continuous recorder on/off, test-recording requests, connection loss in the middle of a frame, reconnects) under the seeded scheduler; at EVERY quiescent point (every yield of the instrumented files) the observer lists the output tree and fully decodes each newly seen *.cptv; at seeded quiescent points (denser inside cptvfilerecorder.go) the tree is copied (= the state kill -9 leaves), the start-up clean-up is run on the copy and everything left must be a complete *.cptv; non-trivial = at least one crash point; distinct = interleaving signature + crash points",
